@@ -92,8 +92,22 @@ pub fn gen_timestamp(rng: &mut Rng) -> Value {
     }
 }
 
+/// a timestamp in chrono's leap-second representation (second `:60`: second-of-minute 59 with nanoseconds in
+/// [10^9, 2·10^9)) — what the text `'… 23:59:60'` parses to and what `make_timestamp(…, 59, 1500000)` builds
+pub fn gen_leap_timestamp(rng: &mut Rng) -> Value {
+    // 2016-12-31 23:59:59, 2015-06-30 23:59:59, 1972-06-30 23:59:59, a mid-day minute, 1969-12-31 23:59:59, year 1, year 9999,
+    // the minutes around the i64-nanosecond window edges
+    let secs = *rng.pick(&[1483228799i64, 1483228799, 1435708799, 78796799, 1700000039, -1, -62135596741, 253402300799, -9223372041, 9223372039, 946684859]);
+    let nanos = match rng.below(5) { 0 => 1_000_000_000u32, 1 => 1_500_000_000, 2 => 1_999_999_999, 3 => 1_000_000_001, _ => 1_000_000_000 + rng.range(0, 999_999_999) as u32 };
+    match Local.timestamp_opt(secs, nanos).single() {
+        Some(t) => Value::Timestamp(t),
+        None => gen_timestamp(rng),
+    }
+}
+
 pub fn gen_interval(rng: &mut Rng) -> Value {
-    let d = match rng.below(4) {
+    let d = match rng.below(5) {
+        4 => Duration::nanoseconds(*rng.pick(&[1i64, -1, 499_999_999, 500_000_000, -500_000_000, -500_000_001, 999_999_999, -999_999_999, 1_000_000_000, -1_000_000_000, 1_500_000_000, -1_500_000_000, 86_400_000_000_000, -86_400_000_000_000, 86_400_500_000_000, 0])),
         0 => Duration::seconds(rng.range(-3, 3)),
         1 => Duration::milliseconds(rng.range(-100_000, 100_000)),
         2 => Duration::nanoseconds(rng.range(-2_000_000_000, 2_000_000_000)),
@@ -131,7 +145,7 @@ pub fn gen_value_of(rng: &mut Rng, t: &ValueType, null_pct: u64) -> Value {
         ValueType::Float => Value::Float(Float(f64::from_bits(gen_f64_bits(rng)))),
         ValueType::Bool => Value::Bool(rng.chance(1, 2)),
         ValueType::String => Value::String(gen_text(rng)),
-        ValueType::Timestamp => gen_timestamp(rng),
+        ValueType::Timestamp => if rng.chance(1, 8) { gen_leap_timestamp(rng) } else { gen_timestamp(rng) },
         ValueType::Interval => gen_interval(rng),
         ValueType::Array(e) => {
             let n = rng.below(4);
